@@ -119,7 +119,7 @@ Print Assumptions C02_verdict_is_model_execution.
 
 (* and therefore the returned Status of an accepted Send is, as multisets, the model collector's, which holds exactly one final
    status per pipeline of a sub-multiset of the registry model's pipelines *)
-Theorem C02_verdict_status_never_invented : forall c roots, case_ok c -> model_roots c = Some roots -> roots_ok roots ->
+Theorem C02_verdict_status_never_invented : forall c roots0 roots, case_ok c -> model_roots c = Some roots0 -> roots = eff_roots c roots0 -> roots_ok roots ->
   exists a, reach (beh_of (d_trace c)) (e0_of (d_trace c)) roots (d_pre c) (a_st a) /\
             (forall acc b, result (a_st a) = Some (acc, b) ->
                (sortN (completes acc), sortN (complete_sinks acc), sortN (warnings acc)) = status_obs c) /\
